@@ -180,7 +180,7 @@ Theorem spline_grid_set_reexpresses s o g s1 ob r ip :
   grid_set s o g = Ok tt s1 ->
   holds s1 o (regrid (o_kind P G C ob) (tval s r) (o_grid P G C ob) g) g.
 Proof.
-  destruct (cfg_all_fields _ Hcf) as (_ & _ & _ & _ & _ & _ & _ & _ & _ & _ & _ & _ & _ & _ & _ & _ & Hsg).
+  destruct (cfg_all_fields _ Hcf) as (_ & _ & _ & _ & _ & _ & _ & _ & _ & _ & _ & _ & _ & _ & _ & _ & Hsg & _).
   intros Hg Hsp Hw Hp Hsub H. unfold TransformState.grid_set, with_obj in H. fold (get_obj s o) in H.
   assert (Hd : is_dense (o_kind P G C ob) = false) by (destruct (o_kind P G C ob); cbn in *; congruence).
   rewrite Hg, Hd, Hsp, Hp, Hsub in H.
